@@ -270,7 +270,9 @@ namespace mon
       }
       else if( enabled ) {
          if( !f.started ) viol( "C08", "C08|no-start|" + t, "invocation of " + std::string( f.name ) + " ended without a start hook" );
-         const int expect = result == 1 ? 1 : result == 0 ? 2 : ( ( f.flags & F_HAS_UNWIND ) ? 3 : -1 );
+         int expect = result == 1 ? 1 : result == 0 ? 2 : ( ( f.flags & F_HAS_UNWIND ) ? 3 : -1 );
+         // must_if: the failure hook itself raised -- the attempt was closed by `failure`, the exception leaves afterwards
+         if( result == 2 && f.raised_from_failure_hook && ( f.flags & F_MUSTIF ) && f.closed == 2 ) expect = 2;
          if( f.closed != expect ) {
             static const char* hn[] = { "none", "start", "success", "failure", "unwind" };
             const char* on = result == 1 ? "true" : result == 0 ? "false" : "exception";
@@ -357,6 +359,17 @@ namespace mon
             f.started = 1;
             break;
          case 1: case 2: case 3:
+            if( kind == 2 && ( f.flags & F_MUSTIF ) && R.g->mif && f.vid >= 0 && R.g->mif[ f.vid ] ) {
+               // must_if: this failure hook is about to raise the rule's message
+               R.raised = true;
+               R.r_name = name;
+               R.r_vid = f.vid;
+               R.r_pos = pos;
+               R.r_lo = f.a.p;
+               R.r_hi = std::max( R.furthest, pos.p );
+               f.raised_from_failure_hook = true;
+               cell( "hook:must_if-raise" );
+            }
             if( !f.started ) viol( "C08", "C08|close-without-start|" + t, std::string( hn[ kind ] ) + " hook for " + std::string( name ) + " without start" );
             if( f.closed != -1 ) viol( "C08", "C08|double-close|" + t, "second closing hook (" + std::string( hn[ kind ] ) + ") for " + std::string( name ) );
             f.closed = kind;
@@ -717,6 +730,7 @@ namespace mon
 
       std::string expected_message( int vid )
       {
+         if( R.cfg && R.cfg->mustif && R.g && R.g->mif && vid >= 0 && R.g->mif[ vid ] ) return R.g->mif[ vid ];
          if( vid >= 0 && std::size_t( vid ) < g_custom.size() && g_custom[ std::size_t( vid ) ] ) return g_custom[ std::size_t( vid ) ];
          return "parse error matching " + std::string( vname( vid ) );
       }
@@ -1015,6 +1029,7 @@ namespace mon
          I.salt = g.salt;
          I.eolpol = cfg.eolpol;
          I.in = input;
+         I.mif = cfg.mustif ? g.mif : nullptr;
          ref::ctx c0;
          c0.act = !cfg.top_nothing;
          const ref::outcome ro = I.ev( g.top, 0, input.size(), c0 );
@@ -1091,7 +1106,8 @@ namespace mon
          }
          else if( rs.st == 2 ) {
             // identity of the global failure
-            const std::string exp = expected_message( ro.blame );
+            // the outer error of *_raise_nested comes from normal::raise_nested: default message or Rule::error_message, never a must_if message
+            const std::string exp = ro.nested_depth > 0 ? "parse error matching " + std::string( vname( ro.blame ) ) : expected_message( ro.blame );
             if( rs.msg != exp ) {
                result_ok = false;
                const char* prop = std::strcmp( g.prop, "C09" ) == 0 ? "C09" : "C05";
